@@ -92,6 +92,14 @@ def GapAtLimit (max : Int) (xs : List Val) : Bool := xs.any Val.isNil && decide 
 def FwdIdxFail (fwd : Bool) (max : Int) (xs : List Val) : Bool :=
   fwd && xs.any Val.isNil && decide ((firstNil xs : Int) < max) && (match xs.getLast? with | some v => !v.isNil | none => false)
 
+/-- K-C19-5: every run of nils is shorter than the limit and the first gap is below it (the
+property's own hypothesis), yet `max` or more nils lie before the last value: the loop gives up -/
+def LimitCountsAll (max : Int) (xs : List Val) : Bool :=
+  xs.any Val.isNil && decide ((firstNil xs : Int) < max) && decide ((maxNilRun xs : Int) < max) &&
+  match lastNonNil xs with
+  | none => false
+  | some k => decide (max ≤ ((nilCount xs - (xs.length - 1 - k) : Nat) : Int))
+
 /-- does `compact` change anything below this value? (a nil somewhere in a writable stack) -/
 def needsWork : Nat → Val → Bool
   | 0, _ => false
@@ -109,7 +117,8 @@ def classTags : (fuel : Nat) → (max : Int) → Stk → List String
     let own : List String :=
       (if DefragOK fwd max s.xs then [] else ["C19.NotDefragOK"]) ++
       (if GapAtLimit max s.xs then ["C19.GapAtLimit"] else []) ++
-      (if FwdIdxFail fwd max s.xs then ["C19.FwdIdx"] else [])
+      (if FwdIdxFail fwd max s.xs then ["C19.FwdIdx"] else []) ++
+      (if LimitCountsAll max s.xs then ["C19.LimitCountsAll"] else [])
     -- the recursion is gated by IsNesting: a stack whose only nested stacks sit inside Conditions is not descended into
     let gate : List String :=
       if !(s.xs.any Stk.countsAsNested) && s.xs.any (fun v => match v with | .cnd _ _ _ _ ex => needsWork fuel ex | _ => false)
